@@ -90,8 +90,9 @@ def run(tier):
                            # pause / resume / stop at any two points
                            ec.catalogue_model_runs(d, tier, shapes=gen.reverse_catalogue(), liveness_for=(), tag='_rev', schedulers=('default', 'legacy')) +
                            ec.catalogue_model_runs(d, tier, shapes=gen.reverse_catalogue(), ops=2, liveness_for=(), tag='_rev_o2', schedulers=('default',)) +
-                           # (two_joins: 18.6 M states under the default scheduler, 5.9 M under the legacy one - thorough tier only)
-                           (ec.catalogue_model_runs(d, tier, shapes=gen.wide_shapes()[:1], liveness_for=(), tag='_wide') if tier == 'thorough' else []),
+                           # (two_joins: 18.6 M states / 15 min under the default scheduler, 5.9 M states under the legacy one: the legacy
+                           #  configuration in the thorough tier only)
+                           (ec.catalogue_model_runs(d, tier, shapes=gen.wide_shapes()[:1], liveness_for=(), tag='_wide', schedulers=('legacy',)) if tier == 'thorough' else []),
                            strict=True, prescribed=True, post=_statement_level(tier),
                            model_behaviours=lambda d: ec.model_jobs(d, tier, sims=[(None, 2 if tier == 'quick' else 10, 0, 0, ())],
                                                                     probes=[('join_started_twice', 'diamond_j1_ok', '\\E x \\in Names : IsJoin(x) /\\ Len(ax[x]) > 1', 0, 0, ())]))
